@@ -371,6 +371,9 @@ func c07Gen(runSeed uint64, tier string) *gen.Scenario {
 	sc.Knobs["level"] = 1
 	if g.Chance(0.25) {
 		sc.Knobs["faults"] = int64(simstore.FaultOpenErr | simstore.FaultIterErr)
+		// half of the injected errors look like a driver timeout (they wrap context.DeadlineExceeded
+		// while the request itself is alive): one item's failure must stay that item's failure
+		sc.Knobs["fault_timeouts"] = int64(g.Intn(2))
 	}
 	return sc
 }
@@ -392,7 +395,9 @@ func c07Exec(t *testing.T, sc *gen.Scenario, trace bool) *harness.Outcome {
 		faulty := sc.Knob("faults", 0) != 0
 		for bi, b := range sc.Requests {
 			ctx, cancel := reqCtx(bi, "", 10*time.Second)
+			timeoutsBefore := e.DS.TimeoutIterErrs()
 			res, n, err := e.SrvBatchCheck(ctx, s, b)
+			clientExpired := ctx.Err() != nil // the batch ran into the client's own deadline
 			cancel()
 			e.Run.Log("resp", fmt.Sprintf("b%d n=%d err=%v", bi, n, err != nil))
 			if err != nil {
@@ -416,7 +421,20 @@ func c07Exec(t *testing.T, sc *gen.Scenario, trace bool) *harness.Outcome {
 				if o.Err != "" {
 					ierr = errors.New(o.Err)
 				}
-				e.JudgeCheck(fmt.Sprintf("batch%d.i%d", bi, i), it, stateFor(sc, it), o.Allowed, ierr, faulty)
+				// an injected fault excuses the item whose evaluation it hit — that item's error names the
+				// fault (or is the bare deadline error the engine turns a wrapped one into); any other error
+				// — a cancellation nobody asked for, say — is judged as in a fault-free run
+				itemFaulty := faulty && (ierr == nil || strings.Contains(o.Err, "sim: injected") || strings.Contains(o.Err, "panic") ||
+					(sc.Knob("fault_timeouts", 0) == 1 && strings.Contains(o.Err, "deadline exceeded")) ||
+					(clientExpired && (strings.Contains(o.Err, "deadline exceeded") || strings.Contains(o.Err, "context canceled"))))
+				if faulty && !itemFaulty {
+					e.SigExtra = " item_error_does_not_name_a_fault"
+				} else if e.DS.TimeoutIterErrs() > timeoutsBefore {
+					// F42: an iterator error that wraps a context error ends the iteration silently
+					e.SigExtra = " iterator_error_wrapping_deadline_fired"
+				}
+				e.JudgeCheck(fmt.Sprintf("batch%d.i%d", bi, i), it, stateFor(sc, it), o.Allowed, ierr, itemFaulty)
+				e.SigExtra = ""
 				if e.Out.Violation != nil {
 					return
 				}
